@@ -13,3 +13,20 @@ Import ListNotations.
 Theorem C16_continue : forall s a b, run (run s a) b = run s (a ++ b).
 Proof. intros s a b. unfold run. rewrite fold_left_app. reflexivity. Qed.
 Print Assumptions C16_continue.
+
+From Coq Require Import String.
+From Sge Require Import Proofs.Tables Gen.genesis.
+(* source fact, regenerated from /repo on every run: every KV collection (store prefix) of each of the eight
+   custom modules is read by the module's ExportGenesis and written by its InitGenesis, except the listed
+   derived/dead ones and the reward cap counters (known finding D8b) *)
+Theorem C16_collections : forallb module_covered genesis_modules = true.
+Proof. exact genesis_collections_covered. Qed.
+Theorem C16_exceptions_tight :
+  forallb (fun x => existsb (fun g => String.eqb (gm_name g) (fst x) && mem_str (snd x) (map fst (gm_prefixes g)) &&
+                                      negb (mem_str (snd x) (gm_exported g))) genesis_modules) not_exported_ok = true.
+Proof. exact genesis_exceptions_tight. Qed.
+Theorem C16_all_modules :
+  forallb (fun m => existsb (fun g => String.eqb (gm_name g) m) genesis_modules)
+          ["bet"; "house"; "market"; "mint"; "orderbook"; "ovm"; "reward"; "subaccount"]%string = true.
+Proof. exact genesis_all_modules. Qed.
+Print Assumptions C16_collections.
